@@ -129,6 +129,8 @@ def program_for(bp, decl, seed, horizon=HORIZON, with_ic=None, region_mode='rand
         if k == 'RestOfWorld':
             # a user's bare Sector inside the ExternalSector country
             prog.append({'op': 'Sector', 'country': 'EXT', 'kind': 'Sector', 'code': d['code'], 'args': {}})
+        elif k == 'BareSector':
+            prog.append({'op': 'Sector', 'country': d['cc'], 'kind': 'Sector', 'code': d['code'], 'args': {}})
         elif k == 'PlainGovernment':
             # the user's own government: a bare Sector that demands goods and receives the taxes
             prog.append({'op': 'Sector', 'country': d['cc'], 'kind': 'Sector', 'code': d['code'], 'args': {}})
